@@ -2,7 +2,7 @@
    (vm_compute) by harness/c19.py.  Case = L (A op :: args). *)
 From Coq Require Import ZArith List Bool String.
 From PTK Require Import Lib.Sx Lib.Py Lib.C19_Str Gen.C19_Palette
-     Model.C19_Palette Model.C19_Style Model.C19_Sgr Model.C19_FromDict Model.C19_Transform Model.C19_Cache Model.C19_Merged.
+     Model.C19_Palette Model.C19_Style Model.C19_Sgr Model.C19_FromDict Model.C19_Transform Model.C19_Cache Model.C19_Merged Model.C19_Float.
 Import ListNotations.
 Open Scope Z_scope.
 
@@ -59,8 +59,8 @@ Fixpoint dec_transf (s : sx) : option transf :=
   | L [A 1] => Some TReverse
   | L [A 2; fg; bg] =>
       match as_str fg, as_str bg with Some f, Some b => Some (TSetDefault f b) | _, _ => None end
-  | L [A 3; v; i; A _; A _] =>
-      match as_bool v, as_bool i with Some v', Some i' => Some (TAdjust v' i') | _, _ => None end
+  | L [A 3; v; i; A mn; A mx] =>
+      match as_bool v, as_bool i with Some v', Some i' => Some (TAdjust v' i' mn mx) | _, _ => None end
   | L [A 4] => Some TDummy
   | L [A 5; f; t] =>
       match as_bool f, dec_transf t with Some f', Some t' => Some (TCond f' t') | _, _ => None end
@@ -210,9 +210,40 @@ Definition run_C19 (c : sx) : sx :=
   | L [A 15; t; a; opp; adj] =>
       match dec_transf t, dec_attrs a, dec_kernel opp, dec_kernel adj with
       | Some t', Some a', Some ko, Some ka =>
-          enc_res (transform (fun k => assoc k ko) (fun k => assoc k ka) t' a')
+          enc_res (transform (fun k => assoc k ko) (fun _ _ k => assoc k ka) t' a')
       | _, _, _, _ => bad_case
       end
+  | L [A 18; L calls] =>  (* ONE Vt100_Output: set_attributes(attrs, depth) in sequence; what each call writes *)
+      match map_opt (fun c => match c with
+                              | L [A depth; a] => match dec_attrs a with Some a' => Some (QEsc depth a') | None => None end
+                              | _ => None end) calls with
+      | Some qs => sx_list enc_answer (run_queries EMPTY_W qs)
+      | None => bad_case
+      end
+  | L [A 20; t; a] =>     (* the same on the real float kernels; the flags of the tree are recomputed *)
+      match dec_transf t, dec_attrs a with
+      | Some t', Some a' => enc_res (transform_real t' a')
+      | _, _ => bad_case
+      end
+  | L [A 21; A mn; A mx; A r; A g; A b] =>     (* the float kernels on three channel bytes *)
+      L [sx_opt sx_str (opp_bytes r g b); sx_opt sx_str (adj_bytes mn mx r g b);
+         sx_bool (valid_real mn mx); sx_bool (valid_real mn mx && identity_real mn mx)]
+  | L [A 22; A mn; A mx; A r] =>               (* ... digest over the plane r x 0..255 x 0..255 *)
+      let ks := map Z.of_nat (seq 0 256) in
+      let num := fun o : option rgb => match o with
+                                       | Some (x, y, z) =>
+                                           if (0 <=? x) && (x <? 256) && (0 <=? y) && (y <? 256) && (0 <=? z) && (z <? 256)
+                                           then x * 65536 + y * 256 + z + 1 else -1
+                                       | None => 0 end in
+      let row := fun (g : Z) =>
+                   fold_left (fun (acc : Z * Z) (b : Z) =>
+                                (fst acc + (b + 1) * num (opp_bytes_n r g b),
+                                 snd acc + (b + 1) * num (adj_bytes_n mn mx r g b))) ks (0, 0) in
+      let d := fold_left (fun (acc : Z * Z) (g : Z) =>
+                            let w := row g in
+                            ((fst acc * 1000003 + fst w) mod 2305843009213693951,
+                             (snd acc * 1000003 + snd w) mod 2305843009213693951)) ks (0, 0) in
+      L [A (fst d); A (snd d)]
   | L [A 16; L qs] =>
       match map_opt dec_query qs with
       | Some qs' => sx_list enc_answer (run_queries EMPTY_W qs')
